@@ -28,7 +28,7 @@ def _doc():
                      st.sampled_from(["  indented continuation", "    deeper é", ":param x: text", "* bullet", "#hash start",
                                       "[bracket] start", "trailing spaces   ", "漢字 text", ".. note:: inline",
                                       # characters str.splitlines() treats as line boundaries, inside one comment line
-                                      "low\tonly -Wall", "  col1\tcol2\t\tcol3", "Form\x0cfeed inside", "Next\x85line char", "Line\u2028separator and\u2029paragraph", "Vt\x0band fs\x1cgs\x1d"]))
+                                      ":type names: list[str]", "usage: cmd [opt]", "ends with a hash #", "KEYS[<n>]", "opens [", "low\tonly -Wall", "  col1\tcol2\t\tcol3", "Form\x0cfeed inside", "Next\x85line char", "Line\u2028separator and\u2029paragraph", "Vt\x0band fs\x1cgs\x1d"]))
     return st.fixed_dictionaries({"lines": st.lists(line, max_size=5), "form": st.sampled_from(["leader", "leader", "leader", "bare"]),
                                   "mpos": st.integers(0, 8)})
 
